@@ -197,12 +197,12 @@ pub fn parse_priority_payload(stream_id: u32, payload: &[u8]) -> Option<Http2Pri
 /// - `:status` (responses only)
 fn extract_pseudo_header_order(frames: &[Http2Frame]) -> Vec<PseudoHeader> {
     // Find first HEADERS frame
-    let headers_frame = frames
+    let headers_pos = frames
         .iter()
-        .find(|f| f.frame_type == Http2FrameType::Headers && f.stream_id > 0);
+        .position(|f| f.frame_type == Http2FrameType::Headers && f.stream_id > 0);
 
-    if let Some(frame) = headers_frame {
-        if let Ok(headers) = decode_headers(&frame.payload) {
+    if let Some(block) = headers_pos.and_then(|pos| complete_header_block(frames, pos)) {
+        if let Ok(headers) = decode_headers(&block) {
             return headers
                 .iter()
                 .filter(|h| h.name.starts_with(':'))
@@ -215,6 +215,27 @@ fn extract_pseudo_header_order(frames: &[Http2Frame]) -> Vec<PseudoHeader> {
 }
 
 /// Decode HPACK-encoded headers
+/// The complete header block that starts with the HEADERS frame at `pos`: its fragment (without
+/// padding and priority fields) followed by the CONTINUATION payloads of the same stream up to
+/// END_HEADERS. `None` while the block is not terminated.
+fn complete_header_block(frames: &[Http2Frame], pos: usize) -> Option<Vec<u8>> {
+    const FLAG_END_HEADERS: u8 = 0x4;
+    let first = frames.get(pos)?;
+    let mut block = Http2Parser::header_block_fragment(first).ok()?.to_vec();
+    if first.flags & FLAG_END_HEADERS != 0 {
+        return Some(block);
+    }
+    for frame in frames.get(pos.saturating_add(1)..)? {
+        if frame.stream_id == first.stream_id && frame.frame_type == Http2FrameType::Continuation {
+            block.extend_from_slice(&frame.payload);
+            if frame.flags & FLAG_END_HEADERS != 0 {
+                return Some(block);
+            }
+        }
+    }
+    None
+}
+
 fn decode_headers(payload: &[u8]) -> Result<Vec<HttpHeader>, hpack_patched::decoder::DecoderError> {
     let mut decoder = Decoder::new();
     let mut headers = Vec::new();
